@@ -60,8 +60,21 @@ pub fn root(alg: Alg) -> KeyPair {
 pub fn other_root(alg: Alg, i: u8) -> KeyPair {
     key(alg, ROLE_ROOT, 1 + i)
 }
-pub fn next_key(alg: Alg, depth: usize) -> KeyPair {
-    key(alg, ROLE_NEXT, depth as u8)
+/// fresh block key: a deterministic function of the token it extends and the
+/// operation, so that (like with a real RNG) two different tokens never share a
+/// next key, while the same operation on the same token gives the same result
+pub fn next_key(alg: Alg, tok: Option<&Tok>, op: &Op) -> KeyPair {
+    use sha2::{Digest, Sha256};
+    let mut h = Sha256::new();
+    h.update(b"next-key");
+    if let Some(t) = tok {
+        h.update(t.to_vec().unwrap_or_default());
+    }
+    h.update(op.show().as_bytes());
+    let mut seed: [u8; 32] = h.finalize().into();
+    seed[0] = 0x11; // keep p256 scalars < n and non-zero
+    let pk = PrivateKey::from_bytes(&seed, alg.to_builder()).expect("derived key");
+    KeyPair::from(&pk)
 }
 pub fn ext_key(alg: Alg, i: u8) -> KeyPair {
     key(alg, ROLE_EXT, i)
@@ -248,8 +261,8 @@ pub fn hist_root(h: &[Op]) -> Alg {
     }
 }
 
-/// apply one op. `depth` = index of the op in the history (chooses the fresh key).
-pub fn apply(tok: Option<&Tok>, op: &Op, depth: usize, root_alg: Alg) -> Result<Tok, String> {
+/// apply one op (fresh keys are derived from the token and the op)
+pub fn apply(tok: Option<&Tok>, op: &Op, _depth: usize, root_alg: Alg) -> Result<Tok, String> {
     let e = |e: biscuit_auth::error::Token| format!("{e:?}");
     match (tok, op) {
         (
@@ -266,16 +279,16 @@ pub fn apply(tok: Option<&Tok>, op: &Op, depth: usize, root_alg: Alg) -> Result<
                 b = b.root_key_id(*k);
             }
             let t = b
-                .build_with_key_pair(&root(*r), SymbolTable::new(), &next_key(*next, depth))
+                .build_with_key_pair(&root(*r), SymbolTable::new(), &next_key(*next, tok, op))
                 .map_err(e)?;
             Ok(Tok::V(t))
         }
         (Some(Tok::V(t)), Op::Append { next, content }) => t
-            .append_with_keypair(&next_key(*next, depth), block_of(content))
+            .append_with_keypair(&next_key(*next, tok, op), block_of(content))
             .map(Tok::V)
             .map_err(e),
         (Some(Tok::U(t)), Op::Append { next, content }) => t
-            .append_with_keypair(&next_key(*next, depth), block_of(content))
+            .append_with_keypair(&next_key(*next, tok, op), block_of(content))
             .map(Tok::U)
             .map_err(e),
         (Some(Tok::V(t)), Op::AppendTp { ext, next, content }) => {
@@ -284,7 +297,7 @@ pub fn apply(tok: Option<&Tok>, op: &Op, depth: usize, root_alg: Alg) -> Result<
             let resp = req
                 .create_block(&extk.private(), block_of(content))
                 .map_err(e)?;
-            t.append_third_party_with_keypair(extk.public(), resp, next_key(*next, depth))
+            t.append_third_party_with_keypair(extk.public(), resp, next_key(*next, tok, op))
                 .map(Tok::V)
                 .map_err(e)
         }
@@ -295,7 +308,7 @@ pub fn apply(tok: Option<&Tok>, op: &Op, depth: usize, root_alg: Alg) -> Result<
                 .create_block(&extk.private(), block_of(content))
                 .map_err(e)?;
             let bytes = resp.serialize().map_err(e)?;
-            t.append_third_party_with_keypair(&bytes, next_key(*next, depth))
+            t.append_third_party_with_keypair(&bytes, next_key(*next, tok, op))
                 .map(Tok::U)
                 .map_err(e)
         }
